@@ -214,6 +214,8 @@ def generate(tier, seed, ctx):
             rec = {'op': 'parse', 'type': 'Message', 'sides': e['sides'], 'flat': e['flat']}
             try:
                 s = tlbkit.tree_to_cell(e['tree']).begin_parse()
+                if len(out) % 5 == 0:
+                    tlbkit.scramble_object(T.MessageAny.deserialize(tlbkit.tree_to_cell(e['tree']).begin_parse()))
                 obj = T.MessageAny.deserialize(s)
                 reparsed = obj
                 rec['rem'] = {'bits': s.remaining_bits, 'refs': s.remaining_refs}
